@@ -177,6 +177,9 @@ TBeginBatch == /\ IsEvent("begin_batch")
                /\ BeginBatch(Has(Ev.args, "no_auto") /\ Ev.args.no_auto) /\ Matches /\ Observed(Ev.obs)
 TEndBatch == IsEvent("end_batch") /\ EndBatch /\ Matches /\ Observed(Ev.obs)
 
+TCommitSkip == IsEvent("commit_skip") /\ CommitSkip(PayEnd(Ev.obs)) /\ Matches /\ Observed(Ev.obs)
+TFinalize == IsEvent("finalize") /\ Finalize(NthOrZero(NewLens, 1)) /\ Matches /\ Observed(Ev.obs)
+
 \* reads: result predicted exactly from the visible frame table
 TTimeline ==
   /\ IsEvent("timeline") /\ Read("timeline") /\ ResOk
@@ -288,7 +291,7 @@ TCorrupt ==
             Chk("corrupt.verify", TableEqOrErr(frames, e.ro.obs) \/ TableEqOrErr(tab, e.ro.obs)))
 
 TraceStep == \/ TReset \/ TCreate \/ TCommit \/ TOpen \/ TOpenRO \/ TClose \/ TAbandon
-             \/ TPut \/ TUpdate \/ TDelete \/ TVacuum \/ TTicket \/ TBeginBatch \/ TEndBatch
+             \/ TPut \/ TUpdate \/ TDelete \/ TVacuum \/ TTicket \/ TBeginBatch \/ TEndBatch \/ TCommitSkip \/ TFinalize
              \/ TTimeline \/ TByUri \/ TVecSet \/ TVerify \/ TDoctor
              \/ TBroken
 
